@@ -1678,6 +1678,13 @@ func (tx *Transaction) auditLogCollectFiles() []plugintypes.AuditLogTransactionR
 // This method helps the GC to clean up the transaction faster and release resources
 // It also allows caches the transaction back into the sync.Pool
 func (tx *Transaction) Close() error {
+	if tx.context == nil {
+		// Already closed (the context is always set while a transaction is in use and is
+		// dropped below): putting the transaction into the pool a second time would make
+		// two later transactions share this object.
+		return nil
+	}
+	tx.context = nil
 	verifhook.Event(verifhook.PoolPut, tx, 0, 0)
 	defer tx.WAF.txPool.Put(tx)
 
